@@ -35,6 +35,10 @@ roots (so the driver can evaluate it at `Rat`) -/
 def cosineParts [Add α] [Mul α] [NatCast α] (a b : List α) : α × α × α :=
   (vsum (vmul a b), vsum (vsquare a), vsum (vsquare b))
 
+/-- what `mean` computed on the pinned tree: the SIGNED mean of first minus second argument (kept to state why the
+repair exists) -/
+def pinnedMean [Add α] [Sub α] [Div α] [NatCast α] (a b : List α) : α := vmean (vsub a b)
+
 /-- what `cosine_similarity` computed on the pinned tree: `-np.sum(norm(y_pred, 2) * norm(y_true, 2))`, minus the
 PRODUCT of the norms (kept to state why the repair exists) -/
 def pinnedCosine [Add α] [Mul α] [Neg α] [NatCast α] [HasSqrt α] (a b : List α) : α := -(norm2 a * norm2 b)
